@@ -39,6 +39,9 @@ for _p in ('C11', 'C12', 'C13'):
 for _p in ('C06', 'C07', 'C09'):
     RELEVANT[_p] = RELEVANT[_p] + WRITER
 RELEVANT['C18'] = READER + WRITER
+BITMASK = ['gen_bm_%s_%s' % (w, k) for k in ('FramingCapabilities', 'BearerCapabilities', 'BearerType', 'FramingType') for w in ('new', 'first', 'second')]
+RELEVANT['C17'] = RELEVANT['C17'] + BITMASK
+ALL = ALL + BITMASK
 
 
 def _support_stamp():
@@ -237,12 +240,14 @@ def linked_vec_check(repo, workdir):
     if pr.returncode == 0 and 'Axioms:' not in out:
         res = {'status': 'holds', 'closed_under_global_context': out.count('Closed under the global context'),
                'theorems': ['regenerated_reader_is_list_reader : forall A (p : prog A) l, grun GenSliceReader p l = run p l',
-                            'G_decode_on_regenerated_reader', 'G_C02_on_regenerated_reader',
+                            'G_decode_on_regenerated_reader', 'G_C02_on_regenerated_reader', 'G_C18_reader_refines_cursor',
+                            'G_C17_FramingCapabilities / _BearerCapabilities / _BearerType / _FramingType',
                             'regenerated_hide_is_model : forall a secret rv lp ap, gen_hide a secret rv lp ap = m_hide md5 a secret rv lp ap',
                             'regenerated_reveal_is_model', 'G_C11_hide_reveal', 'G_C12_hide_is_rfc', 'G_C12_reveal_is_rfc', 'G_C13_reveal_total'],
                'meaning': 'SliceReader (src/common/slice_reader.rs) regenerated from the current source is, as an implementation of the '
                           'Reader trait, the list reader every decoder theorem is stated on; AVP::hide / AVP::reveal regenerated from '
-                          'src/message/avp.rs equal the Model on every input, and C11, C12, C13 are re-proved of the regenerated functions'}
+                          'src/message/avp.rs equal the Model on every input, and C11, C12, C13 are re-proved of the regenerated functions; the bitmask '
+                          'constructors/accessors and the cursor refinement (C17, C18) likewise'}
         json.dump(res, open(cp, 'w'))
     elif any(x in out for x in transient) or out == 'timeout':
         res = {'status': 'not checked (coqc could not run)'}
